@@ -578,10 +578,7 @@ func (fx *FnCtx) branch(st *State, fr *callFrame, b *ssa.BasicBlock, c string) {
 		s2.conds = append(append([]string{}, prefix...), cond)
 		fx.sol.Push()
 		fx.sol.Assert(cond)
-		feasible := true
-		if fx.paths > 40 || len(st.path) > 12 {
-			feasible = fx.sol.Feasible()
-		}
+		feasible := fx.sol.Feasible()
 		if feasible {
 			fx.execBlock(s2, fr, b.Succs[i], 0, b)
 		}
@@ -647,6 +644,23 @@ func (fx *FnCtx) step(st *State, fr *callFrame, ins ssa.Instruction) {
 			st.heapSet(mk, heapSort(mk, es), tSto(m, r, zeroVal(elem).S))
 		} else {
 			st.storeLoc(l, zeroVal(elem))
+		}
+		// atomic fields of a fresh struct start at their zero value
+		if stt, ok := elem.Underlying().(*types.Struct); ok && kindOf(elem) == KStruct {
+			for i := 0; i < stt.NumFields(); i++ {
+				ft := stt.Field(i).Type()
+				if n, ok := ft.(*types.Named); ok && n.Obj().Pkg() != nil && n.Obj().Pkg().Path() == "sync/atomic" {
+					fl := subLoc(l, i, ft)
+					key := "A|" + fl.className()
+					if n.Obj().Name() == "Bool" {
+						a := st.heapGet(key, "(Array Int Bool)")
+						st.heapSet(key, "(Array Int Bool)", tSto(a, r, "false"))
+					} else {
+						a := st.heapGet(key, "(Array Int Int)")
+						st.heapSet(key, "(Array Int Int)", tSto(a, r, "0"))
+					}
+				}
+			}
 		}
 	case *ssa.FieldAddr:
 		base := st.ptrLoc(x.X)
@@ -1395,6 +1409,10 @@ func (fx *FnCtx) staticAssignKeys(c *Contract, cf *ssa.Function, cc *ssa.CallCom
 			if len(x.Args) != 1 {
 				return nil, false
 			}
+			if x.Fun == "atomics" {
+				keys = append(keys, "A|")
+				continue
+			}
 			t := typeOf(x.Args[0])
 			if t == nil {
 				return nil, false
@@ -1419,7 +1437,7 @@ func (fx *FnCtx) staticAssignKeys(c *Contract, cf *ssa.Function, cc *ssa.CallCom
 				}
 				pk, nk := mapKeys(mt)
 				keys = append(keys, pk, nk, "M|map:"+typeKey(mt)+"|")
-			case "atomic":
+			case "atomic", "atomics":
 				keys = append(keys, "A|")
 			default:
 				return nil, false
